@@ -1139,3 +1139,18 @@ pub fn replay_bytes(focus: Focus, case: &Value) -> CheckResult {
     println!("verdict: {}", describe(&v));
     judge(focus, &bytes, &v, &["replay".to_string()], false)
 }
+
+/// In-process oracle for the libFuzzer targets: load; if it loads, exercise the whole API.
+/// A panic propagates (libFuzzer reports it as a crash); nothing else is asserted here.
+pub fn fuzz_one(data: &[u8]) {
+    if data.len() > (1 << 20) {
+        return;
+    }
+    let hints = scan::scan(data).hints;
+    if let Ok(f) = asefile::AsepriteFile::read(data) {
+        let seed = hash_bytes(&data[..data.len().min(64)]);
+        if let Err(d) = crate::exercise::exercise(&f, seed, &hints) {
+            panic!("documented dimensions violated: {}", d);
+        }
+    }
+}
